@@ -78,10 +78,11 @@ def impl(c):
     def vs():
         try: return str(insp.virtual_size)
         except Exception as e: return 'EXN:' + type(e).__name__
+    feeder = insp_obs.Feeder(insp_obs.container_kind(bytes(im.data), list(c['sizes'])))   # chunk container varies per case
     for n in c['sizes']:
         chunk = im.data[pos:pos + n]; pos += n
         try:
-            insp.eat_chunk(chunk); e = '-'
+            insp_obs.eat(insp, chunk, feeder); e = '-'
         except Exception as ex:
             e = type(ex).__name__
         recs.append(e + ';' + vs())
